@@ -118,6 +118,32 @@ Theorem c05_key_filters : forall keys x,
 Proof. intros keys x. split; [apply allow_keys_filter_spec | reflexivity]. Qed.
 Print Assumptions c05_key_filters.
 
+(** ** Iterators, over every call sequence.
+    Whatever sequence of Next / Attribute / IndexedAttribute / Len / ToSlice calls is made on a fresh
+    iterator of any set, the iterator clause holds: ToSlice gives the whole set in order at any
+    position, Len is constant, the p-th Next reports p <= |s| and the attribute is then element p-1. *)
+Theorem c05_iterator_any_sequence : forall s ops,
+  iter_ok s 0 true ops (iter_run (iter_new s) ops) = true.
+Proof. exact iter_fresh_ok. Qed.
+Print Assumptions c05_iterator_any_sequence.
+
+Theorem c05_iterator_toslice_any_position : forall s ops,
+  (forall l, In (OSlice l) (iter_run (iter_new s) ops) -> l = s) /\
+  (forall n, In (OLen n) (iter_run (iter_new s) ops) -> n = N.of_nat (length s)).
+Proof. intros s ops. exact (iter_run_slices ops (iter_new s)). Qed.
+Print Assumptions c05_iterator_toslice_any_position.
+
+(** The plain walk yields each element once, in order, and then reports the end. *)
+Theorem c05_iterator_walk : forall s, iter_run (iter_new s) (walk_ops (length s)) = walk_obs s.
+Proof. exact iter_walk. Qed.
+Print Assumptions c05_iterator_walk.
+
+(** MergeIterator: any sequence of Next / Attribute calls walks the merged sequence the same way. *)
+Theorem c05_merge_iterator_any_sequence : forall a b ops, forallb mi_op ops = true ->
+  iter_ok (merge_iter a b) 0 true ops (miter_run (miter_new a b) ops) = true.
+Proof. exact miter_fresh_ok. Qed.
+Print Assumptions c05_merge_iterator_any_sequence.
+
 (** ** Encoding agrees with the contents.
     What FormatInt writes for an int64 reads back as that int64, on the whole int64 range. *)
 Theorem c05_int64_text_roundtrip :
@@ -223,6 +249,10 @@ Proof. vm_compute. reflexivity. Qed.
 Example ex_int_text : dec_i64 9223372036854775808 = str "-9223372036854775808" /\ dec_i64 0 = str "0" /\
   parse_i64 (str "-9223372036854775808") = Some (-9223372036854775808)%Z /\ parse_i64 (str "-") = None /\ parse_i64 (str "1x") = None.
 Proof. vm_compute. auto. Qed.
+Example ex_iter :
+  iter_run (iter_new (new_set ex_in)) [INext; INext; IToSlice; INext; IAttr; ILen; IIndexed] =
+  [ONext true; ONext true; OSlice (new_set ex_in); ONext false; OAttr zero_kv; OLen 4; OIndexed 5 zero_kv].
+Proof. vm_compute. reflexivity. Qed.
 Example ex_regular_guard_satisfiable :
   kvs_regular [(str "f", VFloats [0; 4607182418800017408]); (str "g", VFloat NEG_ZERO_BITS)] = true.
 Proof. vm_compute. reflexivity. Qed.
